@@ -512,6 +512,7 @@ func (x *Run) doSelect(fr *Frame, st *State, ins *ssa.Select, outs *[]Outcome) [
 				x.mayPanic(fr, s, not(closed), "send-on-closed", ins, outs)
 				s.events = append(s.events, Event{Name: "send", Args: []Val{ch, x.val(fr, s, sst.Send)}})
 			} else {
+				x.interfere(fr, s)
 				s.assume(implies(not(closed), ok.T))
 				if x.onlyClosedEverSignals(ch, sst.Chan.Type()) {
 					s.assume(closed)
